@@ -129,6 +129,7 @@ Definition SE23 : GroupOps F := {|
   g_smallAdj := se23_smallAdj; g_generator := se23_generator; g_vee := se23_vee;
   g_bracket := fun a b => mvmul (se23_smallAdj a) b;
   g_innerweights := inner_weights_generic 9 5 se23_generator;
-  g_trandom := fun u => u
+  g_trandom := fun u => u;
+  g_grandom := fun u => firstn 3 u ++ rand_quat F (vnth u 3) (vnth u 4) (vnth u 5) ++ vslice u 6 3
 |}.
 End SE23.
